@@ -164,6 +164,7 @@ func c17Units(tier string) []hx.Unit {
 				}})
 		}
 	}
+	scns = append(scns, c17MoreScenarios()...)
 	var units []hx.Unit
 	for _, sc := range scns {
 		units = append(units, c17Wrap(sc, tier))
